@@ -2,7 +2,7 @@
    and INDEX) for the correspondence check.  ExtrOcamlBasic only. *)
 From AV Require Import Base.Prelude Gen.ReaderPrims Model.Reader Model.ReaderExt Model.TableLayout
   Gen.TableLayouts Model.Tables Model.Cff Gen.CffDictTables Model.CffDict
-  Gen.GlyfConsts Model.Composite Model.Cmap Model.CmapSubset Model.CmapWrite.
+  Gen.GlyfConsts Model.Composite Model.Cmap Model.CmapSubset Model.CmapWrite Model.CffSets.
 Require Import ExtrOcamlBasic.
 Extraction Language OCaml.
 
@@ -30,4 +30,5 @@ Extraction "../ocaml/c15/model.ml"
   dict_read dict_write dict_write_dep dict_written integer_to_offset operator_try_from is_default
   kind_defaults kind_max_operands operand_write operator_write
   cglyph_read cglyph_write glyph_read_full glyph_write_full has_instructions
-  parse parse_cmap sub_write to_owned cmap_write cmap_read_all owned_records.
+  parse parse_cmap sub_write to_owned cmap_write cmap_read_all owned_records
+  cvt_read cvt_write charset_read charset_write charset_id_for_glyph fdselect_read fdselect_write encoding_read encoding_write.
